@@ -474,9 +474,10 @@ theorem msgValue_eq_boW (enc : ArpaEncW fval a bound P B) (k : List Word) :
   | some e => simp only [Option.map_some]; exact (enc.bval k e hg).2.1
 
 /-- **value of a blank = the ARPA back-off recursion** (under an exact shared addition) -/
-theorem blank_score (enc : ArpaEncW fval a bound P B) (fadd : Nat → Nat → Nat)
-    (hadd : ∀ x y, fval (fadd x y) = fval x + fval y) (st : VisitState)
+theorem blank_score (enc : ArpaEncW fval a bound P B) (fadd : Nat → Nat → Nat) (st : VisitState)
     (hf : Full (visitOrder (gramsOf a P B)) (visitOrder (gramsOf a P B)) st) (b : Blank) (hb : b ∈ st.blanks)
+    (hval : fval (blankProb fadd (visitOrder (gramsOf a P B)) b)
+      = fval b.basis + ((messageKeys b).map (msgValue fval (visitOrder (gramsOf a P B)))).sum)
     (w : Word) (ctx : List Word) (hk : b.key = w :: ctx) :
     fval (blankProb fadd (visitOrder (gramsOf a P B)) b) = score a ctx w := by
   obtain ⟨gm, hgm, hok⟩ := hf.sound b hb
@@ -517,8 +518,7 @@ theorem blank_score (enc : ArpaEncW fval a bound P B) (fadd : Nat → Nat → Na
       have := enc.wf.len_le gm.key (w_mem_real enc gm hgm).1
       omega
     unfold score
-    rw [hctxl, Nat.min_eq_left hord, hun,
-      blankProb_value fval fadd hadd ⟨enc.zero.2, enc.zero.1⟩, hbasis]
+    rw [hctxl, Nat.min_eq_left hord, hun, hval, hbasis]
     congr 1
     unfold messageKeys
     rw [hlen, List.map_map]
@@ -765,9 +765,10 @@ theorem found_ext (p1 p2 b1 b2 : Rat) (l1 l2 r1 r2 k1 k2 : Bool) (hp : p1 = p2) 
   subst hp; subst hb; subst hl; subst hr; rfl
 
 /-- **the builder's bit table agrees with `Table.build a`** on every key: real entries and blanks, values and marks -/
-theorem gen_table_agree (fadd : Nat → Nat → Nat) (enc : ArpaEncW fval a bound P B)
-    (hadd : ∀ x y, fval (fadd x y) = fval x + fval y) (st : VisitState)
+theorem gen_table_agree (fadd : Nat → Nat → Nat) (enc : ArpaEncW fval a bound P B) (st : VisitState)
     (hf : Full (visitOrder (gramsOf a P B)) (visitOrder (gramsOf a P B)) st)
+    (hval : ∀ b ∈ st.blanks, fval (blankProb fadd (visitOrder (gramsOf a P B)) b)
+      = fval b.basis + ((messageKeys b).map (msgValue fval (visitOrder (gramsOf a P B)))).sum)
     (hsign : ∀ b ∈ st.blanks, fval (blankProb fadd (visitOrder (gramsOf a P B)) b % 2^31 + 2^31)
       = fval (blankProb fadd (visitOrder (gramsOf a P B)) b)) :
     TableAgree (tableOf (ftOf fval (genTable fadd a.order (visitOrder (gramsOf a P B)) st.blanks) a.order) a.order) (Table.build a) := by
@@ -859,7 +860,7 @@ theorem gen_table_agree (fadd : Nat → Nat → Nat) (enc : ArpaEncW fval a boun
         have hnc := blank_not_ctx enc _ hbk
         apply found_ext
         · simp only [hne1, if_false]
-          rw [hsign b hb]; exact blank_score enc fadd hadd st hf b hb w ctx hkey
+          rw [hsign b hb]; exact blank_score enc fadd st hf b hb (hval b hb) w ctx hkey
         · simp only [hneo, if_false]
           split
           · exact enc.zero.1
